@@ -230,6 +230,12 @@ mod search;
 mod sync;
 mod util;
 
+/// Verification hooks (only with `--cfg ldap3_verif`).
+#[cfg(ldap3_verif)]
+pub mod verif {
+    pub use crate::conn::VerifIo;
+}
+
 pub use conn::{LdapConnAsync, LdapConnSettings, StdStream};
 pub use filter::parse as parse_filter;
 pub use ldap::{Ldap, Mod};
